@@ -548,6 +548,10 @@ void disturb(vh::Rng & r)
     volatile size_t i = other.computeCellIndexes(p)[D - 1]; (void)i;
     sib = G(S(1), S(r.coin() ? 0.25 : 2.0));
     volatile S w = sib.computeCellCenterPosition(G::CellIndexes::Zero())[0]; (void)w;
+    // every getter of the sibling too (a getter answering through shared storage would show here)
+    volatile S rs = other.getCellResolution() + sib.getCellResolution(); (void)rs;
+    volatile size_t ns = other.getNumberOfCellsAlongAxes()[0] + sib.getNumberOfCellsAlongAxes()[D - 1]; (void)ns;
+    volatile size_t ts = sib.getCellCentersPositionAlong(D - 1).size(); (void)ts;
   }
   {
     romea::core::GridIndexMapping<S2, D> a(S2(7), S2(1));
@@ -556,6 +560,7 @@ void disturb(vh::Rng & r)
     volatile S2 v = a.getCellCentersPositionAlong(D - 1)[2]; (void)v;
     volatile S w = b.getCellCentersPositionAlong(D2 - 1)[3]; (void)w;
     volatile size_t n = e.getNumberOfCellsAlongAxes()[0]; (void)n;
+    volatile double rs = (double)a.getCellResolution() + (double)b.getCellResolution() + (double)e.getCellResolution(); (void)rs;
   }
   {
     std::ostringstream os;
